@@ -68,12 +68,14 @@ def gen_case(rng, tier, index):
     extra = []
     for _ in range(rng.choice([1, 2])):
         r = rng.random()
-        if r < 0.5:
+        if r < 0.4:
             extra.append({"kind": "neutral", "edit": projgen.gen_neutral_edit(rng, model)})
-        elif r < 0.7:
+        elif r < 0.55:
             extra.append({"kind": "sandbox"})
-        elif r < 0.85:
+        elif r < 0.7:
             extra.append({"kind": "more-reaches"})
+        elif r < 0.88:
+            extra.append({"kind": "reached-earlier"})
         else:
             extra.append({"kind": "weaktool-variant"})
     return {"model": model, "perturbations": perts, "extra": extra}
@@ -197,17 +199,24 @@ def run_case(case):
                 got, err = _evaluate(d, 12, 0, False)
                 stats.inc("neutral_edit_" + ex["edit"]["kind"])
                 cmp_base, what = base, "id-neutral edit %s" % ex["edit"]
-            elif k == "more-reaches":
-                # a second root-level consumer that reaches every package again
+            elif k in ("more-reaches", "reached-earlier"):
                 import copy
                 m2 = copy.deepcopy(model)
                 m2["recipes"]["extra"] = projgen._leaf(__import__("random").Random(j))
-                m2["recipes"]["extra"]["depends"] = [dict(x) for x in m2["recipes"]["root"]["depends"]]
-                m2["recipes"]["root"]["depends"].append({"name": "extra", "use": ["result", "deps"]})
+                if k == "more-reaches":
+                    # a second root-level consumer that reaches every package again
+                    m2["recipes"]["extra"]["depends"] = [dict(x) for x in m2["recipes"]["root"]["depends"]]
+                    m2["recipes"]["root"]["depends"].append({"name": "extra", "use": ["result", "deps"]})
+                else:
+                    # ... or a first one that reaches every recipe directly, deepest first, before any
+                    # other path does (without the environment, tools and conditions of those paths)
+                    m2["recipes"]["extra"]["depends"] = [{"name": n, "use": ["result", "deps"]}
+                                                         for n in reversed(m2["order"]) if n not in ("root", "sbx", "pw")]
+                    m2["recipes"]["root"]["depends"].insert(0, {"name": "extra", "use": ["result", "deps"]})
                 m2["order"] = m2["order"] + ["extra"]
                 _copy_project(projgen.files_of(m2), d, None, 0)
                 got, err = _evaluate(d, 13, 0, False)
-                stats.inc("more_reaches_evaluations")
+                stats.inc("more_reaches_evaluations" if k == "more-reaches" else "reached_earlier_evaluations")
                 if got is not None:
                     # ids of everything that existed before (except root itself, which got a dependency)
                     got = {p: v for p, v in got.items() if p in base and p != "root"}
